@@ -227,7 +227,7 @@ def _transform_part(run, rng, lines, meta, thorough):
         if kind == "pair":
             cutoff = rng.choice([0.45, 0.75, 1.1]) * gen.min_lattice_vector(scell.cell)
             cutoff = max(cutoff, 1.05 * min(np.linalg.norm(prim.cell, axis=1)) * 0.8)
-            phi_raw = gen.pair_fc(scell, cutoff)
+            phi_raw = U.pair_fc(scell, cutoff)
             phi = phi_raw
         else:
             fcc0 = gen.rand_rational_array(rng, (npa, ns, 3, 3))
@@ -375,7 +375,7 @@ def _ph2ph_part(run, rng, thorough):
 
         cutoff = rng.choice([0.6, 1.0]) * gen.min_lattice_vector(ph.supercell.cell)
         cutoff = max(cutoff, 0.85 * min(np.linalg.norm(ph.primitive.cell, axis=1)))
-        phi = gen.pair_fc(ph.supercell, cutoff)
+        phi = U.pair_fc(ph.supercell, cutoff)
         ph.force_constants = phi if full else F.full_fc_to_compact_fc(ph.primitive, phi)
         method = None
         if nac:
